@@ -145,7 +145,7 @@ def fit_program(prog, fresh=False, model=None):
             return model
     fault = prog.get("fault_at")
     if prog["mode"] == "pre":
-        W = np.array(prog["W"], dtype=float)
+        W = np.array(prog["W"], dtype=np.dtype(prog.get("matrix_dtype", "float64")))
         m = mk(kind, None, True)
         if prog.get("set_flag"):
             # the object's configuration is switched through its public property (it may have been
@@ -167,7 +167,10 @@ def fit_program(prog, fresh=False, model=None):
                 LAST_FAULT_CALLS[0] = m.pre_distances._calls
                 m.pre_distances = W
         idx = [int(i) for i in I] + [nl + i for i in range(nu)]
-        Wd = [[float(W[a][b]) for b in idx] for a in idx]
+        if W.dtype.kind == "i":
+            Wd = [[int(W[a][b]) for b in idx] for a in idx]      # exact integers (may exceed 2**53)
+        else:
+            Wd = [[float(W[a][b]) for b in idx] for a in idx]
     else:
         X = np.array(prog["X"], dtype=float)
         m = mk(kind, prog["metric"], False)
